@@ -445,7 +445,13 @@ func classifyRange(p *packages.Package, site rangeSite) (class string, why strin
 			}
 			return "", "branch " + x.Tok.String()
 		case *ast.ReturnStmt:
-			return "", "return inside the loop"
+			// an early exit that returns constants only: a search ("is there an element with ...")
+			for _, e := range x.Results {
+				if !isConst(e) {
+					return "", "return inside the loop"
+				}
+			}
+			return "const-return", ""
 		}
 		return "", fmt.Sprintf("statement %T", st)
 	}
@@ -485,6 +491,11 @@ func classifyRange(p *packages.Package, site rangeSite) (class string, why strin
 			if r == "append("+s+","+key+")" || (val != "" && r == "append("+s+","+val+")") {
 				if sortedBeforeUse(site.Outer, rs, s) {
 					return "collect-then-sort", ""
+				}
+				if f := onlyVertexListOfComponentSearch(p, site.Outer, rs, s); f != "" {
+					// the partition into components does not depend on the order of the vertex list (tabled argument of
+					// the search itself); the order of the returned list is the business of rule C19-d
+					return "vertex-list-of-" + f, ""
 				}
 				return "", "appends to " + s + ", which is used before being sorted: the visiting order leaks into a sequence"
 			}
@@ -527,6 +538,33 @@ func classifyRange(p *packages.Package, site rangeSite) (class string, why strin
 	c, w := blockClass(body)
 	if c != "" {
 		// a guarded class whose condition reads what the body writes is order-sensitive
+		if strings.Contains(c, "const-return") {
+			// a search: the same constants are returned whichever element satisfies the test first, provided the loop
+			// does nothing else that could be observed after the early exit
+			for _, eff := range []string{"insert", "delete", "const-store"} {
+				if strings.Contains(c, eff) {
+					return "", "early return combined with " + eff + ": how much was done before the exit depends on the visiting order"
+				}
+			}
+			rets := map[string]bool{}
+			ast.Inspect(rs.Body, func(n ast.Node) bool {
+				if _, ok := n.(*ast.FuncLit); ok {
+					return false
+				}
+				if ret, ok := n.(*ast.ReturnStmt); ok {
+					var parts []string
+					for _, e := range ret.Results {
+						parts = append(parts, nospace(e))
+					}
+					rets[strings.Join(parts, ",")] = true
+				}
+				return true
+			})
+			if len(rets) != 1 {
+				return "", "several different early returns: which one is taken depends on the visiting order"
+			}
+			return "exists-search", ""
+		}
 		return c, ""
 	}
 	return "", w
@@ -784,6 +822,7 @@ func C19(c *Ctx) {
 	r.Rule("C19-a", "each range over a map in package main (generator files), ast and builder is in an automatic order-insensitive class or is a tabled instance whose effect signature is unchanged")
 	r.Rule("C19-b", "no use of time, math/rand, crypto/rand, os.Getpid, go statements, select, reflect or unsafe in the generator files")
 	r.Rule("C19-c", "the grammar literal and the code blocks are emitted by ranging over grammar.Rules (a slice), never over a map")
+	r.Rule("C19-d", "a list that a function builds under a map range and returns unsorted (the components of StronglyConnectedComponents, the cycles of FindCyclesInSCC) is in map-iteration order: every loop over such a list is in an automatic order-insensitive class or is a tabled instance whose effect signature is unchanged - what one iteration stores is not read by another")
 	r.Rule("C19-t", "runtime template: the map ranges of every variant are order-insensitive (state cloning, discarding, expected-list de-duplication followed by sort)")
 
 	g := c.G()
@@ -902,6 +941,7 @@ func C19(c *Ctx) {
 			})
 		}
 	}
+	c19Sequences(c)
 	// ---- b
 	var bad []string
 	for _, sfx := range []string{"", "ast", "builder"} {
@@ -1125,4 +1165,56 @@ func sideEffectFree(p *packages.Package, name string, depth int) bool {
 	})
 	sideEffectFreeCache[key] = ok
 	return ok
+}
+
+// onlyVertexListOfComponentSearch: after the loop, the slice s is used only as an argument of calls to one function of
+// the package for which the table holds an argument that its result, as a set, does not depend on visiting order
+// (an entry "<pkg>.<closure>@<func>:…"), i.e. the component search. Returns that function's name.
+func onlyVertexListOfComponentSearch(p *packages.Package, fd *ast.FuncDecl, loop *ast.RangeStmt, s string) string {
+	if p.Types == nil || fd == nil {
+		return ""
+	}
+	tabled := func(fn string) bool {
+		for k := range orderReasons {
+			if strings.HasPrefix(k, p.Types.Name()+".") && strings.Contains(k, "@"+fn+":") {
+				return true
+			}
+		}
+		return false
+	}
+	target := ""
+	ok := true
+	var parents []ast.Node
+	ast.Inspect(fd.Body, func(n ast.Node) bool {
+		if n == nil {
+			parents = parents[:len(parents)-1]
+			return true
+		}
+		parents = append(parents, n)
+		id, isId := n.(*ast.Ident)
+		if !isId || id.Name != s || id.Pos() < loop.End() {
+			return true
+		}
+		// the use must be a direct argument of a call to a tabled search
+		if len(parents) >= 2 {
+			if ce, isCall := parents[len(parents)-2].(*ast.CallExpr); isCall {
+				if fid, isF := ce.Fun.(*ast.Ident); isF && tabled(fid.Name) {
+					for _, a := range ce.Args {
+						if a == ast.Expr(id) {
+							if target == "" || target == fid.Name {
+								target = fid.Name
+								return true
+							}
+						}
+					}
+				}
+			}
+		}
+		ok = false
+		return true
+	})
+	if !ok {
+		return ""
+	}
+	return target
 }
